@@ -69,6 +69,15 @@ def explore(res, rng, n):
             sn_arr = np.array([list(p) for p in sn], dtype=float)
             rows_arr = np.array([list(r) for r in rows], dtype=float)
             use_arr = (i % 3 == 1)
+            if i % 9 == 4:
+                # single-precision tables (values exactly representable in float32): same damage as the float64 copy
+                sn32 = np.array([list(p) for p in sn], dtype=np.float32)
+                rows32 = np.array([list(r) for r in rows], dtype=np.float32)
+                d32 = float(fdm.minerDamageModelClassic(rows32, sn32, lim))
+                d64 = float(fdm.minerDamageModelClassic(rows32.astype(float), sn32.astype(float), lim))
+                res.stat('float32_tables')
+                if not gen.close(d32, d64, 1e-12, 1e-300):
+                    fail(res, 'damage of float32 tables differs from the same numbers in float64', case, [d32, d64])
             SN = (lambda: sn_arr) if use_arr else (lambda: [list(p) for p in sn])
             d = float(fdm.minerDamageModelClassic(rows_arr if use_arr else [list(r) for r in rows], SN(), lim))
             reqs.append(f'miner classic {gen.bits(lim)} {enc(sn)} {enc(rows)}')
